@@ -918,20 +918,24 @@ fn render(d: &Design) -> Result<Rendered, String> {
                     }
                     _ => unreachable!(),
                 }
-                if let Some(ls) = locals.get(&ii) {
-                    for l in ls {
-                        lines.push((format!("{pad}    {l}"), 0, Some(ii)));
-                    }
-                }
-                // the reset is only looked at (and checked against the clock) if the block starts
-                // with `if_reset` (`eval_reset`)
+                // the reset is only looked at (and checked against the clock) if the block *starts*
+                // with `if_reset` (`has_if_reset` tests the first statement, `eval_reset`): block-local
+                // declarations therefore go inside the `else` branch
                 let with_reset = matches!(it, Item::F(_, _, Some(_), _));
+                let empty = vec![];
+                let ls = locals.get(&ii).unwrap_or(&empty);
                 if with_reset {
                     lines.push((format!("{pad}    if_reset {{"), 0, Some(ii)));
                     lines.push((format!("{pad}    }} else {{"), 0, Some(ii)));
+                    for l in ls {
+                        lines.push((format!("{pad}        {l}"), 0, Some(ii)));
+                    }
                     emit_block(b, ind + 8, &nm, &mut tag, &mut salt, ii, &mut lines);
                     lines.push((format!("{pad}    }}"), 0, Some(ii)));
                 } else {
+                    for l in ls {
+                        lines.push((format!("{pad}    {l}"), 0, Some(ii)));
+                    }
                     emit_block(b, ind + 4, &nm, &mut tag, &mut salt, ii, &mut lines);
                 }
                 lines.push((format!("{pad}}}"), 0, Some(ii)));
